@@ -25,6 +25,11 @@ from vlib.props.C11 import FixedRandom, members, fresh, snapshot, _BYTES
 _TMP = {}
 
 
+# the draws of TypeOverwriting.transform that select WHAT is mutated (method, graph node, type parameter) are
+# tuples / named tuples; draws inside find_irrelevant_type range over types and take the first element
+MUTATION_CHOICES = lambda seq: isinstance(seq[0], tuple)      # noqa: E731
+
+
 def tmpdir():
     d = _TMP.get(os.getpid())
     if d is None:
@@ -176,7 +181,7 @@ def h_roundtrip(eng, tier, lang, sym_draws, part):
         return _erasure_part(eng, obs, p, q, lang, stage, case)
     # mutations with the same random choices
     p1, q1 = P.clone(p), P.clone(q)
-    sym = installed(eng, max_draws=2000, max_sym_draws=sym_draws)
+    sym = installed(eng, max_draws=2000, max_sym_draws=sym_draws, sym_filter=MUTATION_CHOICES)
     try:
         r1, t1 = P.overwrite_split(p1, lang, FixedRandom(), sym)
         out1 = (t1.is_transformed, t1.error_injected)
